@@ -744,9 +744,9 @@ fn main() {
     let mid = if thorough {
         Budget {
             grid: vec![0, 1, 2, -1],
-            conf_pairings: 40,
+            conf_pairings: 80,
             conf_multi: (0..=9).chain(vec![5, 6, 7, 8, 9, 4, 3, 2, 1, 5, 9, 8]).collect(),
-            test_rounds: 10,
+            test_rounds: 16,
             small: 9,
             fepow: 2,
             bilin_groups: 3,
@@ -758,9 +758,9 @@ fn main() {
     let small298 = if thorough {
         Budget {
             grid: vec![0, 1, 2, -1],
-            conf_pairings: 40,
+            conf_pairings: 80,
             conf_multi: (0..=9).chain(vec![5, 6, 7, 8, 9, 4, 3, 2, 1]).collect(),
-            test_rounds: 10,
+            test_rounds: 16,
             small: 9,
             fepow: 2,
             bilin_groups: 3,
@@ -770,7 +770,7 @@ fn main() {
         Budget { grid: vec![0, 1, 2, -1], conf_pairings: 4, conf_multi: vec![0, 1, 2, 3, 5, 9], test_rounds: 1, small: 3, fepow: 1, bilin_groups: 1, g2prep_extra: 1 }
     };
     let big = if thorough {
-        Budget { grid: vec![0, 1, -1], conf_pairings: 10, conf_multi: vec![0, 1, 2, 3, 4, 5, 6, 9], test_rounds: 4, small: 4, fepow: 2, bilin_groups: 3, g2prep_extra: 1 }
+        Budget { grid: vec![0, 1, -1], conf_pairings: 16, conf_multi: vec![0, 1, 2, 3, 4, 5, 6, 9], test_rounds: 6, small: 4, fepow: 2, bilin_groups: 3, g2prep_extra: 1 }
     } else {
         Budget { grid: vec![0, 1], conf_pairings: 1, conf_multi: vec![0, 2, 5], test_rounds: 1, small: 2, fepow: 1, bilin_groups: 1, g2prep_extra: 0 }
     };
